@@ -476,8 +476,8 @@ func C20(cfg Cfg) int {
 		bin = "/verif/.bin/vh"
 	}
 	t0 := time.Now()
-	batches := cfg.N(4, 60)
-	per := cfg.N(2500, 30000)
+	batches := cfg.N(4, 24)
+	per := cfg.N(2500, 20000)
 	for b := 0; b < batches && run.NumViolations() < 3; b++ {
 		dir := filepath.Join(cfg.Work, fmt.Sprintf("inproc-%d", b))
 		mode := "notrace"
@@ -554,7 +554,7 @@ func c20Wire(run *evid.Run, cfg Cfg) {
 	}
 	defer conn.Close()
 	g := c20NewGen(cfg.Rand("c20-wire"))
-	total := cfg.N(1500, 100000)
+	total := cfg.N(1500, 40000)
 	signer, lister := pb.NewSignerClient(conn), pb.NewListerClient(conn)
 	lf, _ := os.OpenFile(filepath.Join(dir, "inputs.log"), os.O_CREATE|os.O_WRONLY|os.O_APPEND, 0o644)
 	for i := 0; i < total; i++ {
